@@ -26,6 +26,7 @@ func TestC15Race(t *testing.T) {
 	rec.Require("overlapping-api-and-readers", "close-racing", "tcp-peer-connecting-during-close", "kept-events-read-again")
 	hbLay, _ := ref.LayoutOf(refTypeOf(&minimal.MessageHeartbeat{}))
 	evid.Check(t, rec, evid.N(60, 250), func(t *rapid.T) {
+		drawNodeInit(t)
 		ncustom := rapid.IntRange(2, 3).Draw(t, "ncustom")
 		ntcp := rapid.IntRange(0, 2).Draw(t, "ntcp")
 		nudp := rapid.IntRange(0, 1).Draw(t, "nudp")
@@ -54,7 +55,7 @@ func TestC15Race(t *testing.T) {
 		}
 		n := &gomavlib.Node{Endpoints: endpoints, Dialect: ardupilotmega.Dialect, OutVersion: gomavlib.V2, OutSystemID: nodeSys,
 			HeartbeatPeriod: hbPeriod, StreamRequestEnable: true, OutKey: keyOf(key), WriteTimeout: 500 * time.Millisecond}
-		if err := n.Initialize(); err != nil {
+		if err := initNode(&n); err != nil {
 			t.Fatalf("BROKEN: %v", err)
 		}
 		var readersActive, apiActive, overlap, routed, lookedAgain int32
